@@ -41,6 +41,11 @@ def coverage_class(tr, ev):
 
 def run_check(pid, tier, seed, plan=None):
     t0 = time.time()
+    rdir = os.path.join(judge.VERIF, "replays")
+    if os.path.isdir(rdir):
+        for f in os.listdir(rdir):  # replay files are rewritten by every run of this property's check
+            if f.startswith(pid + "-"):
+                os.unlink(os.path.join(rdir, f))
     rng = random.Random("%s/%s/%d" % (pid, tier, seed))
     plan = plan or props
     design = plan.design_runs(pid, tier, rng)
